@@ -62,3 +62,74 @@ Qed.
 
 Theorem chunk_files_nodup_all g r c : split g = Some r -> In c (a_chunks (r_analysis r)) -> NoDup (c_files c).
 Proof. intro H. apply split_inv in H as [A _]. apply (chunk_files_nodup_lemma g). exact A. Qed.
+
+(* ------------------------------------------------------------------ *)
+(* soundness of the layered closure: everything in it is reachable from a root *)
+Lemma new_layer_sound succ ok seen layer t :
+  In t (new_layer succ ok seen layer) -> In t (flat_map succ layer) /\ ok t = true.
+Proof.
+  unfold new_layer.
+  assert (G : forall l acc, (forall x, In x acc -> In x (flat_map succ layer) /\ ok x = true) ->
+            incl l (flat_map succ layer) ->
+            forall x, In x (fold_left (fun acc t => if ok t && negb (memn t seen) && negb (memn t acc) then acc ++ [t] else acc) l acc) ->
+            In x (flat_map succ layer) /\ ok x = true).
+  { induction l as [|y l IH]; intros acc HA HI x Hx; simpl in Hx; [apply HA; exact Hx|].
+    apply (IH (if ok y && negb (memn y seen) && negb (memn y acc) then acc ++ [y] else acc)); [| intros z Hz; apply HI; right; exact Hz | exact Hx].
+    intros z Hz. destruct (ok y && negb (memn y seen) && negb (memn y acc)) eqn:E; [|apply HA; exact Hz].
+    apply in_app_or in Hz as [Hz|[<-|[]]]; [apply HA; exact Hz|].
+    split; [apply HI; left; reflexivity|]. apply andb_true_iff in E as [E _]. apply andb_true_iff in E as [E _]. exact E. }
+  apply (G (flat_map succ layer) []); [intros x [] | apply incl_refl].
+Qed.
+
+Lemma bfs_sound succ ok (R : nat -> Prop) :
+  (forall y t, R y -> In t (succ y) -> ok t = true -> R t) ->
+  forall fuel seen layer d acc,
+    (forall y, In y layer -> R y) -> (forall p, In p acc -> R (fst p)) ->
+    forall p, In p (bfs fuel succ ok seen layer d acc) -> R (fst p).
+Proof.
+  intros HR. induction fuel as [|k IH]; intros seen layer d acc HL HA p Hp; simpl in Hp; [apply HA; exact Hp|].
+  destruct (new_layer succ ok seen layer) as [|y next] eqn:E; [apply HA; exact Hp|].
+  assert (HN : forall t, In t (y :: next) -> R t).
+  { intros t Ht. rewrite <- E in Ht. apply new_layer_sound in Ht as [Ht Hok].
+    apply in_flat_map in Ht as [z [Hz Ht]]. eapply HR; eauto. }
+  apply (IH _ _ _ _ HN) in Hp; [exact Hp|].
+  intros q Hq. apply in_app_or in Hq as [Hq|Hq]; [apply HA; exact Hq|].
+  change ((y, S d) :: map (fun t : nat => (t, S d)) next) with (map (fun t : nat => (t, S d)) (y :: next)) in Hq.
+  apply in_map_iff in Hq as [t [<- Ht]]. simpl. apply HN. exact Ht.
+Qed.
+
+Lemma closure_sound fuel succ ok roots r x : closure fuel succ ok roots = Some r -> In x (map fst r) ->
+  exists root, In root roots /\ path succ ok root x.
+Proof.
+  unfold closure. intros H Hx. destruct (closedb succ ok _); [|discriminate]. inversion H; subst; clear H.
+  apply in_map_iff in Hx as [p [<- Hp]].
+  apply (bfs_sound succ ok (fun x => exists root, In root roots /\ path succ ok root x)) in Hp; [exact Hp | | |].
+  - intros y t [root [Hr HP]] Ht Hok. exists root. split; [exact Hr|]. eapply path_step; eauto.
+  - intros y Hy. apply (proj1 (dedupe_In _ _)) in Hy. apply filter_In in Hy as [Hy _]. exists y. split; [exact Hy | apply path_refl].
+  - intros q Hq. apply in_map_iff in Hq as [t [<- Ht]]. simpl.
+    apply (proj1 (dedupe_In _ _)) in Ht. apply filter_In in Ht as [Ht _]. exists t. split; [exact Ht | apply path_refl].
+Qed.
+
+(* bit j of a file is set exactly when the file is reachable from entry point j
+   (over live files, not following import() of other entry points) *)
+Lemma bits_iff_reachable_lemma g a f j : analyse g = Some a -> (j < length (a_entries a))%nat ->
+  (HasBit (file_bits a f) j = true <->
+   path (split_succ g (a_entries a)) (is_live a) (nth j (a_entries a) O) f).
+Proof.
+  intros H Hj. rewrite (file_bits_spec g) by assumption. rewrite memn_In. split.
+  - intro Hin. destruct (analyse_inv _ _ H) as [_ [HE [_ [_ AS]]]].
+    pose proof (all_some_nth _ _ j [] AS) as N. rewrite map_length in N. rewrite HE in Hj. specialize (N Hj).
+    set (F := fun e => closure (S (nfiles g)) (split_succ g (entries g)) (fun t => memn t (a_live a)) [e]) in *.
+    rewrite (nth_indep _ None (F O)) in N by (rewrite map_length; exact Hj).
+    rewrite map_nth in N. unfold F in N.
+    destruct (closure_sound _ _ _ _ _ f N Hin) as [root [[<-|[]] HP]]. rewrite HE. exact HP.
+  - intro HP. destruct (reach_closed _ _ j H Hj) as [C R].
+    eapply closed_path; [exact C | apply R; apply (entry_is_live g); assumption | exact HP].
+Qed.
+
+Theorem bits_iff_reachable_all g r f j : split g = Some r ->
+  let a := r_analysis r in
+  (j < length (a_entries a))%nat ->
+  (HasBit (file_bits a f) j = true <->
+   path (split_succ g (a_entries a)) (is_live a) (nth j (a_entries a) O) f).
+Proof. intro H. apply split_inv in H as [A _]. simpl. apply (bits_iff_reachable_lemma g). exact A. Qed.
